@@ -1553,16 +1553,20 @@ class SyncObj(object):
             # Commands of this node that the dump covers are never passed to __applyLogEntries here,
             # so their callbacks would be lost. Whether they were applied (and with what result) is
             # not known to this node: report the outcome as open instead of staying silent forever.
+            covered = []
             for idx in sorted(idx for idx in self.__commandsWaitingCommit if idx <= self.__raftLastApplied):
-                for _, callback in self.__commandsWaitingCommit.pop(idx):
-                    try:
-                        callback(None, FAIL_REASON.LEADER_CHANGED)
-                    except Exception:
-                        logger.exception('failed to execute callback')
+                covered.extend(self.__commandsWaitingCommit.pop(idx))
 
             if self.__conf.dynamicMembershipChange:
                 self.__updateClusterConfiguration([node for node in data[3] if node != self.__selfNode])
             self.__onSetCodeVersion(self.__enabledCodeVersion)
+
+            # (answered last: a call made from a callback finds the member set and the method table of the snapshot)
+            for _, callback in covered:
+                try:
+                    callback(None, FAIL_REASON.LEADER_CHANGED)
+                except Exception:
+                    logger.exception('failed to execute callback')
             return data[1][1]
         except:
             logger.exception('failed to load full dump')
